@@ -216,7 +216,13 @@ func (q *Quiescer) Sustained(d time.Duration) (bool, string) {
 	start := time.Now()
 	c0, s0 := Now(), verifhook.Steps()
 	for time.Since(start) < d {
+		t0 := time.Now()
 		time.Sleep(5 * time.Millisecond)
+		if late := time.Since(t0) - 5*time.Millisecond; late > 100*time.Millisecond {
+			// the machine is so busy that even this probe was not scheduled in time: goroutines of the
+			// system under test may be starved as well, silence proves nothing
+			return false, fmt.Sprintf("probe scheduled %v late: machine overloaded, window void", late)
+		}
 		if q.Barrier != nil {
 			q.Barrier()
 		}
